@@ -21,6 +21,7 @@ type Result struct {
 	Injected bool // the panic was injected by the simulator
 	Failed   bool // the call reported failure through its return values
 	Skipped  bool // not executed (cost guard)
+	Timeout  bool // reference execution exceeded its step budget
 	Ret      string
 	Z        Obs
 	HasZ     bool
@@ -134,6 +135,9 @@ func execOp(w *World, op *Op) (res Result) {
 		if r := recover(); r != nil {
 			if r == verifrt.Abort {
 				panic(r)
+			}
+			if r == verifrt.ShadowTimeout {
+				res.Timeout = true
 			}
 			res.Panicked = true
 			res.Injected = verifrt.PanicsFired() > fired0
